@@ -86,11 +86,18 @@ class RerunConverges(FlowBase):
             if not down and [t, lin] not in keep:
                 keep.append([t, lin])
         items = any(t in self._items for t, _ in keep) or bool(self._items)
-        g["rr"] = {"requested": keep, "requested_explicit": bool(reqs), "items": items, "handled_requested": False}
+        sticky = bool(g.get("rr") and g["rr"].get("handled_requested"))
+        g["rr"] = {"requested": keep, "requested_explicit": bool(reqs), "items": items, "handled_requested": sticky}
+        if pre["status"] == st.CANCELED:
+            # the quantifier covers failed terminal histories; for a canceled one only stuck-freedom,
+            # exceptions and the inadmissible-request probes are judged
+            g["off"] = "rerun of a canceled workflow"
+            return []
         unhandled_before = [list(x) for x in g["unhandled"]]
         if items:
             g["off"] = "rerun in a definition with with-items tasks (stuck-freedom and exceptions only)"
             return []
+        g["tok"] = [x for x in g["tok"] if not (len(x) > 6 and x[6])]  # optional leftovers of an earlier rerun
         optional = []
         if not reqs:
             # by default the failed terminal executions: those nothing handled must be re-executed; those
@@ -149,7 +156,10 @@ class RerunConverges(FlowBase):
             return []
         # ---- after an accepted rerun
         if res.exc is not None and move[0] != "req":
+            act = res.extra.get("action")
             return [{"kind": "exception_after_rerun", "sig": {"op": move[0], "exc_type": res.exc_type,
+                                                                "reported_task_is_engine_command": bool(
+                                                                    act and act[0] in ("fail", "noop", "continue")),
                                                                 "has_items": bool(self._items)},
                      "detail": res.exc}]
         if move[0] == "dispatch" and not res.offers and not sim.h["inflight"] and not sim.h["held"]:
@@ -168,7 +178,11 @@ class RerunConverges(FlowBase):
             if status == st.SUCCEEDED and not g["off"]:
                 pend = self.ref.pending_unconsumed(g)
                 if pend:
-                    return [{"kind": "rerun_lost_work", "sig": {}, "detail": pend}]
+                    return [{"kind": "rerun_lost_work",
+                             "sig": {"fail_command_ran": any(f.startswith("fail command") for f in g["fatal"]) or
+                                     bool((sim.h.get("rerun_info") or {}).get("fail_command_terminal")),
+                                     "reruns": min(sim.h["reruns"], 2)},
+                             "detail": pend}]
             if status in (st.SUCCEEDED, st.FAILED) and not g["off"]:
                 return self._twin(g, sim, post)
         return []
